@@ -263,7 +263,7 @@ def evaluate_seed(case):
 
 def run(ctx):
     if ctx.tier == "quick":
-        plan = [(["T:3"], [2, 1])]
+        plan = [(["T:3"], [2, 1])] + explore.extra_stages("light")
     else:
         plan = [(["T:3"], [2, 2]), (["T:3"], [1, 1, 1]), (["T:m0,5,5,9", "T:1"], [2, 2])]
     ctx.rule = ("E1 BFS over programs; per program: harness counters around simplify_once/lower_once/rewrite/_fusion_pass "
